@@ -87,7 +87,7 @@ func (r *Rng) c03Table() *c03Table {
 	return t
 }
 
-func strConst(s string) string { return s }
+func c03StrConst(s string) string { return s }
 
 func c03NumberParser(n string) (string, error) {
 	if strings.Count(n, ".") > 1 {
@@ -148,7 +148,7 @@ func (t *c03Table) coqIdents(withMap bool) string {
 	return CoqList(items)
 }
 
-func coqStrs(l []string) string {
+func c03CoqStrs(l []string) string {
 	items := make([]string, len(l))
 	for i, s := range l {
 		items[i] = CoqStr(s)
@@ -158,17 +158,17 @@ func coqStrs(l []string) string {
 
 // ---------------------------------------------------------------- rendering trees
 
-type rtNode struct {
+type c03Rt struct {
 	K        string    `json:"k"` // ident num str paren bin un access method call index list
 	S        string    `json:"s,omitempty"`
 	J        int       `json:"j,omitempty"`
-	L        *rtNode   `json:"l,omitempty"`
-	R        *rtNode   `json:"r,omitempty"`
-	Args     []*rtNode `json:"args,omitempty"`
+	L        *c03Rt   `json:"l,omitempty"`
+	R        *c03Rt   `json:"r,omitempty"`
+	Args     []*c03Rt `json:"args,omitempty"`
 	Trailing bool      `json:"trailing,omitempty"`
 }
 
-func (n *rtNode) coqArgs() string {
+func (n *c03Rt) coqArgs() string {
 	s := "RA_nil"
 	if len(n.Args) == 0 {
 		return s
@@ -184,7 +184,7 @@ func (n *rtNode) coqArgs() string {
 	return s
 }
 
-func (n *rtNode) coq() string {
+func (n *c03Rt) coq() string {
 	switch n.K {
 	case "ident":
 		return "(RIdent " + CoqStr(n.S) + ")"
@@ -212,9 +212,9 @@ func (n *rtNode) coq() string {
 	panic("rt kind " + n.K)
 }
 
-func (n *rtNode) depth() int {
+func (n *c03Rt) depth() int {
 	d := 0
-	for _, c := range append([]*rtNode{n.L, n.R}, n.Args...) {
+	for _, c := range append([]*c03Rt{n.L, n.R}, n.Args...) {
 		if c != nil && c.depth() > d {
 			d = c.depth()
 		}
@@ -222,9 +222,9 @@ func (n *rtNode) depth() int {
 	return d + 1
 }
 
-func (n *rtNode) walk(f func(*rtNode)) {
+func (n *c03Rt) walk(f func(*c03Rt)) {
 	f(n)
-	for _, c := range append([]*rtNode{n.L, n.R}, n.Args...) {
+	for _, c := range append([]*c03Rt{n.L, n.R}, n.Args...) {
 		if c != nil {
 			c.walk(f)
 		}
@@ -232,19 +232,19 @@ func (n *rtNode) walk(f func(*rtNode)) {
 }
 
 // surface tree (no parentheses) over the table
-func (r *Rng) c03Expr(t *c03Table, depth int) *rtNode {
+func (r *Rng) c03Expr(t *c03Table, depth int) *c03Rt {
 	if depth <= 0 || r.Chance(0.12) {
 		switch r.Pick(10) {
 		case 0, 1:
-			return &rtNode{K: "num", S: []string{"1", "2", "42", "3.5", "0.25", "7"}[r.Pick(6)]}
+			return &c03Rt{K: "num", S: []string{"1", "2", "42", "3.5", "0.25", "7"}[r.Pick(6)]}
 		case 2:
-			return &rtNode{K: "str", S: []string{"s", "a b", "", "x+y"}[r.Pick(4)]}
+			return &c03Rt{K: "str", S: []string{"s", "a b", "", "x+y"}[r.Pick(4)]}
 		default:
-			return &rtNode{K: "ident", S: t.Idents[r.Pick(len(t.Idents))].Name}
+			return &c03Rt{K: "ident", S: t.Idents[r.Pick(len(t.Idents))].Name}
 		}
 	}
-	args := func() ([]*rtNode, bool) {
-		var as []*rtNode
+	args := func() ([]*c03Rt, bool) {
+		var as []*c03Rt
 		k := r.Pick(4)
 		for i := 0; i < k; i++ {
 			as = append(as, r.c03Expr(t, depth-1-r.Pick(2)))
@@ -254,22 +254,22 @@ func (r *Rng) c03Expr(t *c03Table, depth int) *rtNode {
 	c := r.Pick(100)
 	switch {
 	case c < 55 && len(t.Ops) > 0:
-		return &rtNode{K: "bin", J: r.Pick(len(t.Ops)), L: r.c03Expr(t, depth-1), R: r.c03Expr(t, depth-1)}
+		return &c03Rt{K: "bin", J: r.Pick(len(t.Ops)), L: r.c03Expr(t, depth-1), R: r.c03Expr(t, depth-1)}
 	case c < 72 && len(t.Unary) > 0:
-		return &rtNode{K: "un", S: t.Unary[r.Pick(len(t.Unary))], L: r.c03Expr(t, depth-1)}
+		return &c03Rt{K: "un", S: t.Unary[r.Pick(len(t.Unary))], L: r.c03Expr(t, depth-1)}
 	case c < 78:
-		return &rtNode{K: "access", S: []string{"m", "len", "a"}[r.Pick(3)], L: r.c03Expr(t, depth-1)}
+		return &c03Rt{K: "access", S: []string{"m", "len", "a"}[r.Pick(3)], L: r.c03Expr(t, depth-1)}
 	case c < 84:
 		as, tr := args()
-		return &rtNode{K: "method", S: []string{"m", "len", "a"}[r.Pick(3)], L: r.c03Expr(t, depth-1), Args: as, Trailing: tr}
+		return &c03Rt{K: "method", S: []string{"m", "len", "a"}[r.Pick(3)], L: r.c03Expr(t, depth-1), Args: as, Trailing: tr}
 	case c < 90:
 		as, tr := args()
-		return &rtNode{K: "call", L: r.c03Expr(t, depth-1), Args: as, Trailing: tr}
+		return &c03Rt{K: "call", L: r.c03Expr(t, depth-1), Args: as, Trailing: tr}
 	case c < 95:
-		return &rtNode{K: "index", L: r.c03Expr(t, depth-1), R: r.c03Expr(t, depth-1)}
+		return &c03Rt{K: "index", L: r.c03Expr(t, depth-1), R: r.c03Expr(t, depth-1)}
 	case c < 98:
 		as, tr := args()
-		return &rtNode{K: "list", Args: as, Trailing: tr}
+		return &c03Rt{K: "list", Args: as, Trailing: tr}
 	}
 	return r.c03Expr(t, 0)
 }
@@ -285,7 +285,7 @@ func (t *c03Table) levelOf(u string) int {
 	return -1
 }
 
-func (t *c03Table) lvl(n *rtNode) int {
+func (t *c03Table) lvl(n *c03Rt) int {
 	switch n.K {
 	case "bin":
 		return n.J
@@ -296,7 +296,7 @@ func (t *c03Table) lvl(n *rtNode) int {
 }
 
 // operators of a level >= follow(n) written directly after n would become part of n's last operand
-func (t *c03Table) follow(n *rtNode) int {
+func (t *c03Table) follow(n *c03Rt) int {
 	switch n.K {
 	case "bin":
 		return t.follow(n.R)
@@ -313,25 +313,25 @@ func (t *c03Table) follow(n *rtNode) int {
 }
 
 const (
-	modeMin  = 0
-	modeRand = 1
-	modeFull = 2
+	c03ModeMin  = 0
+	c03ModeRand = 1
+	c03ModeFull = 2
 )
 
-func paren(n *rtNode) *rtNode { return &rtNode{K: "paren", L: n} }
+func c03Paren(n *c03Rt) *c03Rt { return &c03Rt{K: "paren", L: n} }
 
 // render inserts parentheses into the surface tree n
-func (r *Rng) c03Render(t *c03Table, n *rtNode, mode int) *rtNode {
+func (r *Rng) c03Render(t *c03Table, n *c03Rt, mode int) *c03Rt {
 	nops := len(t.Ops)
-	wrap := func(ok bool, x *rtNode) *rtNode {
+	wrap := func(ok bool, x *c03Rt) *c03Rt {
 		if ok {
 			return x
 		}
-		return paren(x)
+		return c03Paren(x)
 	}
-	var out *rtNode
-	args := func() []*rtNode {
-		var as []*rtNode
+	var out *c03Rt
+	args := func() []*c03Rt {
+		var as []*c03Rt
 		for _, a := range n.Args {
 			as = append(as, r.c03Render(t, a, mode))
 		}
@@ -339,9 +339,9 @@ func (r *Rng) c03Render(t *c03Table, n *rtNode, mode int) *rtNode {
 	}
 	switch n.K {
 	case "ident", "num", "str":
-		out = &rtNode{K: n.K, S: n.S}
-		if mode == modeRand && r.Chance(0.1) {
-			out = paren(out)
+		out = &c03Rt{K: n.K, S: n.S}
+		if mode == c03ModeRand && r.Chance(0.1) {
+			out = c03Paren(out)
 		}
 		return out
 	case "paren":
@@ -349,35 +349,35 @@ func (r *Rng) c03Render(t *c03Table, n *rtNode, mode int) *rtNode {
 	case "bin":
 		l := r.c03Render(t, n.L, mode)
 		rr := r.c03Render(t, n.R, mode)
-		out = &rtNode{K: "bin", J: n.J, L: wrap(t.lvl(l) >= n.J && n.J < t.follow(l), l), R: wrap(t.lvl(rr) >= n.J+1, rr)}
+		out = &c03Rt{K: "bin", J: n.J, L: wrap(t.lvl(l) >= n.J && n.J < t.follow(l), l), R: wrap(t.lvl(rr) >= n.J+1, rr)}
 	case "un":
 		e := r.c03Render(t, n.L, mode)
 		if p := t.levelOf(n.S); p >= 0 {
-			out = &rtNode{K: "un", S: n.S, L: wrap(t.lvl(e) >= p+1, e)}
+			out = &c03Rt{K: "un", S: n.S, L: wrap(t.lvl(e) >= p+1, e)}
 		} else {
-			out = &rtNode{K: "un", S: n.S, L: wrap(t.lvl(e) == nops+1, e)}
+			out = &c03Rt{K: "un", S: n.S, L: wrap(t.lvl(e) == nops+1, e)}
 		}
 	case "access":
 		e := r.c03Render(t, n.L, mode)
-		out = &rtNode{K: "access", S: n.S, L: wrap(t.lvl(e) == nops+1, e)}
+		out = &c03Rt{K: "access", S: n.S, L: wrap(t.lvl(e) == nops+1, e)}
 	case "method":
 		e := r.c03Render(t, n.L, mode)
-		out = &rtNode{K: "method", S: n.S, L: wrap(t.lvl(e) == nops+1, e), Args: args(), Trailing: n.Trailing}
+		out = &c03Rt{K: "method", S: n.S, L: wrap(t.lvl(e) == nops+1, e), Args: args(), Trailing: n.Trailing}
 	case "call":
 		e := r.c03Render(t, n.L, mode)
-		out = &rtNode{K: "call", L: wrap(t.lvl(e) == nops+1 && e.K != "access", e), Args: args(), Trailing: n.Trailing}
+		out = &c03Rt{K: "call", L: wrap(t.lvl(e) == nops+1 && e.K != "access", e), Args: args(), Trailing: n.Trailing}
 	case "index":
 		e := r.c03Render(t, n.L, mode)
-		out = &rtNode{K: "index", L: wrap(t.lvl(e) == nops+1, e), R: r.c03Render(t, n.R, mode)}
+		out = &c03Rt{K: "index", L: wrap(t.lvl(e) == nops+1, e), R: r.c03Render(t, n.R, mode)}
 	case "list":
-		out = &rtNode{K: "list", Args: args(), Trailing: n.Trailing}
+		out = &c03Rt{K: "list", Args: args(), Trailing: n.Trailing}
 	}
 	switch mode {
-	case modeFull:
-		out = paren(out)
-	case modeRand:
+	case c03ModeFull:
+		out = c03Paren(out)
+	case c03ModeRand:
 		for r.Chance(0.25) {
-			out = paren(out)
+			out = c03Paren(out)
 		}
 	}
 	return out
@@ -391,81 +391,81 @@ type c03Tok struct {
 }
 
 const (
-	ttIdent = 0
-	ttKeyWord = 1
-	ttOpen = 2
-	ttClose = 3
-	ttOpenBracket = 4
-	ttCloseBracket = 5
-	ttOpenCurly = 6
-	ttCloseCurly = 7
-	ttDot = 8
-	ttComma = 9
-	ttColon = 10
-	ttSemicolon = 11
-	ttNumber = 12
-	ttString = 13
-	ttOperate = 14
+	c03ttIdent = 0
+	c03ttKeyWord = 1
+	c03ttOpen = 2
+	c03ttClose = 3
+	c03ttOpenBracket = 4
+	c03ttCloseBracket = 5
+	c03ttOpenCurly = 6
+	c03ttCloseCurly = 7
+	c03ttDot = 8
+	c03ttComma = 9
+	c03ttColon = 10
+	c03ttSemicolon = 11
+	c03ttNumber = 12
+	c03ttString = 13
+	c03ttOperate = 14
 )
 
-func (t *c03Table) flatten(n *rtNode, out *[]c03Tok) {
+func (t *c03Table) flatten(n *c03Rt, out *[]c03Tok) {
 	emit := func(typ int, img string) { *out = append(*out, c03Tok{typ, img}) }
 	args := func(closeTyp int, closeImg string) {
 		for i, a := range n.Args {
 			if i > 0 {
-				emit(ttComma, ",")
+				emit(c03ttComma, ",")
 			}
 			t.flatten(a, out)
 		}
 		if n.Trailing && len(n.Args) > 0 {
-			emit(ttComma, ",")
+			emit(c03ttComma, ",")
 		}
 		emit(closeTyp, closeImg)
 	}
 	switch n.K {
 	case "ident":
-		emit(ttIdent, n.S)
+		emit(c03ttIdent, n.S)
 	case "num":
-		emit(ttNumber, n.S)
+		emit(c03ttNumber, n.S)
 	case "str":
-		emit(ttString, n.S)
+		emit(c03ttString, n.S)
 	case "paren":
-		emit(ttOpen, "(")
+		emit(c03ttOpen, "(")
 		t.flatten(n.L, out)
-		emit(ttClose, ")")
+		emit(c03ttClose, ")")
 	case "bin":
 		t.flatten(n.L, out)
-		emit(ttOperate, t.Ops[n.J])
+		emit(c03ttOperate, t.Ops[n.J])
 		t.flatten(n.R, out)
 	case "un":
-		emit(ttOperate, n.S)
+		emit(c03ttOperate, n.S)
 		t.flatten(n.L, out)
 	case "access":
 		t.flatten(n.L, out)
-		emit(ttDot, ".")
-		emit(ttIdent, n.S)
+		emit(c03ttDot, ".")
+		emit(c03ttIdent, n.S)
 	case "method":
 		t.flatten(n.L, out)
-		emit(ttDot, ".")
-		emit(ttIdent, n.S)
-		emit(ttOpen, "(")
-		args(ttClose, ")")
+		emit(c03ttDot, ".")
+		emit(c03ttIdent, n.S)
+		emit(c03ttOpen, "(")
+		args(c03ttClose, ")")
 	case "call":
 		t.flatten(n.L, out)
-		emit(ttOpen, "(")
-		args(ttClose, ")")
+		emit(c03ttOpen, "(")
+		args(c03ttClose, ")")
 	case "index":
 		t.flatten(n.L, out)
-		emit(ttOpenBracket, "[")
+		emit(c03ttOpenBracket, "[")
 		t.flatten(n.R, out)
-		emit(ttCloseBracket, "]")
+		emit(c03ttCloseBracket, "]")
 	case "list":
-		emit(ttOpenBracket, "[")
-		args(ttCloseBracket, "]")
+		emit(c03ttOpenBracket, "[")
+		args(c03ttCloseBracket, "]")
 	}
 }
 
-func isWordy(s string) bool {
+func c03IsWordy(s string) bool {
 	if s == "" {
 		return false
 	}
@@ -486,17 +486,17 @@ func (r *Rng) c03Text(t *c03Table, toks []c03Tok) string {
 		img := tk.Img
 		word, op, num := false, false, false
 		switch tk.Typ {
-		case ttIdent:
-			if isWordy(img) && !(img[0] >= '0' && img[0] <= '9') {
+		case c03ttIdent:
+			if c03IsWordy(img) && !(img[0] >= '0' && img[0] <= '9') {
 				word = true
 			} else {
 				img = "'" + img + "'"
 			}
-		case ttNumber:
+		case c03ttNumber:
 			word, num = true, true
-		case ttString:
+		case c03ttString:
 			img = "\"" + img + "\""
-		case ttOperate:
+		case c03ttOperate:
 			op = true
 			for w, o := range t.Alias {
 				if o == img && r.Chance(0.5) {
@@ -504,17 +504,17 @@ func (r *Rng) c03Text(t *c03Table, toks []c03Tok) string {
 					break
 				}
 			}
-		case ttKeyWord:
+		case c03ttKeyWord:
 			word = true
 		}
 		sep := r.Chance(0.4)
 		if i == 0 {
 			sep = r.Chance(0.1)
 		}
-		if (prevWord && word) || (prevOp && op) || (prevNum && tk.Typ == ttDot) || (prevWord && tk.Typ == ttDot && num) {
+		if (prevWord && word) || (prevOp && op) || (prevNum && tk.Typ == c03ttDot) || (prevWord && tk.Typ == c03ttDot && num) {
 			sep = true
 		}
-		if prevNum && tk.Typ == ttDot {
+		if prevNum && tk.Typ == c03ttDot {
 			sep = true
 		}
 		if sep {
@@ -537,7 +537,7 @@ func (t *c03Table) identKind(name string) string {
 	return ""
 }
 
-func (t *c03Table) expect(n *rtNode, withMap bool) string {
+func (t *c03Table) expect(n *c03Rt, withMap bool) string {
 	args := func() string {
 		var as []string
 		for _, a := range n.Args {
@@ -551,12 +551,12 @@ func (t *c03Table) expect(n *rtNode, withMap bool) string {
 		case "const":
 			return "(AConst " + CoqStr("c:"+n.S) + ")"
 		case "func":
-			return "(AIdent " + CoqStr(n.S) + ")"
+			return "(AIdent " + CoqStr(n.S) + " true)"
 		}
 		if withMap && t.MapThis != "" {
-			return "(AAccess " + CoqStr(n.S) + " (AIdent " + CoqStr(t.MapThis) + "))"
+			return "(AAccess " + CoqStr(n.S) + " (AIdent " + CoqStr(t.MapThis) + " false))"
 		}
-		return "(AIdent " + CoqStr(n.S) + ")"
+		return "(AIdent " + CoqStr(n.S) + " false)"
 	case "num":
 		return "(AConst " + CoqStr("n:"+n.S) + ")"
 	case "str":
@@ -588,7 +588,7 @@ type c03Case struct {
 	Text    string    `json:"text"`
 	Kind    int       `json:"kind"`
 	WithMap bool      `json:"with_map"`
-	Cert    *rtNode   `json:"cert,omitempty"` // kind 0: rendering tree
+	Cert    *c03Rt   `json:"cert,omitempty"` // kind 0: rendering tree
 	Want    []c03Tok  `json:"want_tokens,omitempty"`
 	Note    string    `json:"note,omitempty"`
 }
@@ -613,17 +613,17 @@ func c03FirstDiff(a, b string) string {
 	return "length"
 }
 
-func balancedToks(toks []parser2.VerifPTok) bool {
+func c03Balanced(toks []parser2.VerifPTok) bool {
 	var st []int
 	for _, t := range toks {
 		switch t.Typ {
-		case ttOpen:
-			st = append(st, ttClose)
-		case ttOpenBracket:
-			st = append(st, ttCloseBracket)
-		case ttOpenCurly:
-			st = append(st, ttCloseCurly)
-		case ttClose, ttCloseBracket, ttCloseCurly:
+		case c03ttOpen:
+			st = append(st, c03ttClose)
+		case c03ttOpenBracket:
+			st = append(st, c03ttCloseBracket)
+		case c03ttOpenCurly:
+			st = append(st, c03ttCloseCurly)
+		case c03ttClose, c03ttCloseBracket, c03ttCloseCurly:
 			if len(st) == 0 || st[len(st)-1] != t.Typ {
 				return false
 			}
@@ -672,7 +672,7 @@ func (cr *c03Runner) run(c *c03Case) {
 			dump = err.Error()
 			return
 		}
-		dump = parser2.VerifParseDump(ast, strConst)
+		dump = parser2.VerifParseDump(ast, c03StrConst)
 	}()
 	sum.Evaluations++
 	kindName := []string{"rendering", "fragment-mutant", "program", "program-mutant"}[c.Kind]
@@ -703,7 +703,7 @@ func (cr *c03Runner) run(c *c03Case) {
 	if t.Value {
 		ids = c03ValueCoqIdents(c.WithMap)
 	}
-	cr.cw.Add(fmt.Sprintf("(%d, mkIn %s %s %s %s %d %s, %s)", id, coqStrs(t.Ops), coqStrs(t.Unary), ids, CoqList(tl), c.Kind, cert, obs))
+	cr.cw.Add(fmt.Sprintf("(%d, mkIn %s %s %s %s %d %s, %s)", id, c03CoqStrs(t.Ops), c03CoqStrs(t.Unary), ids, CoqList(tl), c.Kind, cert, obs))
 
 	sig := ""
 	human := map[string]any{"text": c.Text, "ops": t.Ops, "unary": t.Unary, "kind": kindName, "observed": outcome + ": " + dump, "repro": c, "note": c.Note}
@@ -731,7 +731,7 @@ func (cr *c03Runner) run(c *c03Case) {
 			viol("the AST differs from the tree that was written", "regroup:"+c03FirstDiff(want, dump), want)
 		}
 	case c.Kind == 1 || c.Kind == 3:
-		if outcome == "ok" && !balancedToks(toks) {
+		if outcome == "ok" && !c03Balanced(toks) {
 			viol("input with unbalanced brackets was accepted", "accepted-unbalanced", "error")
 		}
 	case c.Kind == 2:
@@ -739,8 +739,12 @@ func (cr *c03Runner) run(c *c03Case) {
 			viol("a generated program of the full grammar was rejected", "program-rejected", "an AST")
 		}
 	}
+	if sig == "" {
+		// signature used when only the Coq-side specification check objects to this case
+		sig = "spec:" + kindName
+	}
 	human["signature"] = sig
-	if sig != "" || id%40 == 1 || len(sum.Cases) < 400 || c.Kind == 0 {
+	if len(sum.GoViolations) > 0 || id%40 == 1 || len(sum.Cases) < 400 || c.Kind == 0 || outcome == "ok" {
 		sum.Cases[fmt.Sprint(id)] = human
 	}
 	if c.Kind == 0 {
@@ -775,7 +779,7 @@ func c03ValueCoqIdents(withMap bool) string {
 	return t.coqIdents(withMap)
 }
 
-type progGen struct {
+type c03ProgGen struct {
 	r     *Rng
 	ops   []string
 	unary []string
@@ -783,11 +787,11 @@ type progGen struct {
 	n     int
 }
 
-var progNames = []string{"a", "b", "c", "n", "f", "g", "acc", "x", "y", "e"}
+var c03ProgNames = []string{"a", "b", "c", "n", "f", "g", "acc", "x", "y", "e"}
 
-func (g *progGen) name() string { return progNames[g.r.Pick(len(progNames))] }
+func (g *c03ProgGen) name() string { return c03ProgNames[g.r.Pick(len(c03ProgNames))] }
 
-func (g *progGen) use() string {
+func (g *c03ProgGen) use() string {
 	c := g.r.Pick(100)
 	switch {
 	case c < 60 && len(g.scope) > 0:
@@ -798,7 +802,7 @@ func (g *progGen) use() string {
 	return "zz" // unknown
 }
 
-func (g *progGen) with(names []string, f func() string) string {
+func (g *c03ProgGen) with(names []string, f func() string) string {
 	old := g.scope
 	g.scope = append(append([]string{}, g.scope...), names...)
 	s := f()
@@ -806,7 +810,7 @@ func (g *progGen) with(names []string, f func() string) string {
 	return s
 }
 
-func (g *progGen) params() []string {
+func (g *c03ProgGen) params() []string {
 	k := 1 + g.r.Pick(3)
 	var ps []string
 	for len(ps) < k {
@@ -823,7 +827,7 @@ func (g *progGen) params() []string {
 }
 
 // a position where parseLet is called
-func (g *progGen) let(d int) string {
+func (g *c03ProgGen) let(d int) string {
 	g.n++
 	if d > 0 && g.r.Chance(0.3) {
 		n := g.name()
@@ -838,7 +842,7 @@ func (g *progGen) let(d int) string {
 	return g.expr(d)
 }
 
-func (g *progGen) expr(d int) string {
+func (g *c03ProgGen) expr(d int) string {
 	g.n++
 	if d <= 0 || g.r.Chance(0.15) {
 		switch g.r.Pick(8) {
@@ -913,7 +917,7 @@ func (g *progGen) expr(d int) string {
 	return g.postfixBase(d) + " . key"
 }
 
-func (g *progGen) postfixBase(d int) string {
+func (g *c03ProgGen) postfixBase(d int) string {
 	if g.r.Chance(0.7) {
 		return g.use()
 	}
@@ -922,7 +926,7 @@ func (g *progGen) postfixBase(d int) string {
 
 // ---------------------------------------------------------------- driver
 
-func (cr *c03Runner) rendering(r *Rng, t *c03Table, tree *rtNode, mode int, withMap bool) (*c03Case, []c03Tok) {
+func (cr *c03Runner) rendering(r *Rng, t *c03Table, tree *c03Rt, mode int, withMap bool) (*c03Case, []c03Tok) {
 	rt := r.c03Render(t, tree, mode)
 	var toks []c03Tok
 	t.flatten(rt, &toks)
@@ -930,9 +934,9 @@ func (cr *c03Runner) rendering(r *Rng, t *c03Table, tree *rtNode, mode int, with
 		Note: []string{"minimal parentheses", "random redundant parentheses", "full parentheses"}[mode]}, toks
 }
 
-func c03Levels(n *rtNode) int {
+func c03Levels(n *c03Rt) int {
 	lv := map[int]bool{}
-	n.walk(func(x *rtNode) {
+	n.walk(func(x *c03Rt) {
 		if x.K == "bin" {
 			lv[x.J] = true
 		}
@@ -942,15 +946,15 @@ func c03Levels(n *rtNode) int {
 
 func (cr *c03Runner) corpus() {
 	r := NewRng(7)
-	id := func(s string) *rtNode { return &rtNode{K: "ident", S: s} }
-	num := func(s string) *rtNode { return &rtNode{K: "num", S: s} }
+	id := func(s string) *c03Rt { return &c03Rt{K: "ident", S: s} }
+	num := func(s string) *c03Rt { return &c03Rt{K: "num", S: s} }
 	// known-bad first: prefix operator = highest-priority binary operator (panicked before the fix),
 	// and the empty operator table (panicked in parseOp)
 	t1 := &c03Table{Ops: []string{"+", "-"}, Unary: []string{"-"}, Alias: map[string]string{}, Idents: c03BaseIdents}
-	for _, tree := range []*rtNode{
+	for _, tree := range []*c03Rt{
 		{K: "un", S: "-", L: num("1")},
-		{K: "bin", J: 0, L: num("2"), R: &rtNode{K: "un", S: "-", L: num("1")}},
-		{K: "bin", J: 1, L: &rtNode{K: "un", S: "-", L: id("a")}, R: &rtNode{K: "un", S: "-", L: &rtNode{K: "un", S: "-", L: id("b")}}},
+		{K: "bin", J: 0, L: num("2"), R: &c03Rt{K: "un", S: "-", L: num("1")}},
+		{K: "bin", J: 1, L: &c03Rt{K: "un", S: "-", L: id("a")}, R: &c03Rt{K: "un", S: "-", L: &c03Rt{K: "un", S: "-", L: id("b")}}},
 	} {
 		for mode := 0; mode < 3; mode++ {
 			c, _ := cr.rendering(r, t1, tree, mode, false)
@@ -959,16 +963,16 @@ func (cr *c03Runner) corpus() {
 		}
 	}
 	t0 := &c03Table{Ops: nil, Unary: []string{"-", "!"}, Alias: map[string]string{}, Idents: c03BaseIdents}
-	for _, tree := range []*rtNode{num("1"), {K: "un", S: "-", L: &rtNode{K: "un", S: "!", L: id("a")}},
-		{K: "call", L: id("f"), Args: []*rtNode{{K: "un", S: "-", L: num("1")}, id("b")}}} {
-		c, _ := cr.rendering(r, t0, tree, modeMin, false)
+	for _, tree := range []*c03Rt{num("1"), {K: "un", S: "-", L: &c03Rt{K: "un", S: "!", L: id("a")}},
+		{K: "call", L: id("f"), Args: []*c03Rt{{K: "un", S: "-", L: num("1")}, id("b")}}} {
+		c, _ := cr.rendering(r, t0, tree, c03ModeMin, false)
 		c.Note = "corpus: no binary operators declared"
 		cr.run(c)
 	}
 	cr.run(&c03Case{Table: t0, Text: "1 1", Kind: 1, Note: "corpus: no binary operators, trailing token"})
 	// the follow bound: a * -b * c  with  - below *  groups as a * (-(b*c))
 	t2 := &c03Table{Ops: []string{"-", "*"}, Unary: []string{"-"}, Alias: map[string]string{}, Idents: c03BaseIdents}
-	tree := &rtNode{K: "bin", J: 1, L: &rtNode{K: "bin", J: 1, L: id("a"), R: &rtNode{K: "un", S: "-", L: id("b")}}, R: id("c")}
+	tree := &c03Rt{K: "bin", J: 1, L: &c03Rt{K: "bin", J: 1, L: id("a"), R: &c03Rt{K: "un", S: "-", L: id("b")}}, R: id("c")}
 	for mode := 0; mode < 3; mode++ {
 		c, _ := cr.rendering(r, t2, tree, mode, false)
 		c.Note = "corpus: follow bound of a prefix operator that is also binary; " + c.Note
@@ -983,7 +987,7 @@ func cmdC03(seed int64, tier, outDir string) {
 	r := NewRng(seed)
 	sum := NewSummary("C03", seed, tier)
 	sum.Rule = "random operator tables (1..16 binary operators from a pool of 43 spellings with prefix overlaps, 0..3 prefix operators of which some are also binary incl. the highest level, optional text aliases) x expression trees of depth <= 6 (binary, prefix, member, method call, call, index, list) x {minimal, random-redundant, full} parenthesisation, parsed by the real parser; plus single-token deletions/insertions of the minimal rendering and generated/mutated programs of the full grammar over the value-language table. Non-trivial = a (table, tree) pair whose tree uses >= 3 distinct priority levels and whose minimal and full parenthesisation differ; distinct by table and fully parenthesised text"
-	cw := NewCaseWriter(outDir, "From P2 Require Import Base.Prelude Lex.Token Syn.Ast Syn.Parse Syn.Render Run.C03Run.", "c03_case", "c03_id", "c03_im", "c03_is", 150)
+	cw := NewCaseWriter(outDir, "From P2 Require Import Base.Prelude Lex.Token Syn.Ast Syn.Parse Syn.Render Run.C03Run.", "c03_case", "c03_id", "c03_im", "c03_is", 300)
 	cr := &c03Runner{sum: sum, cw: cw}
 
 	// the value-language parser: real operator table and keywords; optimizer off, constants describe themselves
@@ -1022,19 +1026,19 @@ func cmdC03(seed int64, tier, outDir string) {
 
 	cr.corpus()
 
-	tables, exprs, muts, progs := 40, 5, 10, 150
+	tables, exprs, muts, progs := 30, 5, 10, 120
 	if tier == "thorough" {
 		tables, exprs, muts, progs = 1500, 12, 40, 6000
 	}
 	tables *= optBoost
 	progs *= optBoost
 	insertable := func(t *c03Table) []c03Tok {
-		l := []c03Tok{{ttOpen, "("}, {ttClose, ")"}, {ttOpenBracket, "["}, {ttCloseBracket, "]"}, {ttComma, ","}, {ttDot, "."}, {ttIdent, "a"}, {ttNumber, "1"}}
+		l := []c03Tok{{c03ttOpen, "("}, {c03ttClose, ")"}, {c03ttOpenBracket, "["}, {c03ttCloseBracket, "]"}, {c03ttComma, ","}, {c03ttDot, "."}, {c03ttIdent, "a"}, {c03ttNumber, "1"}}
 		for _, o := range t.Ops {
-			l = append(l, c03Tok{ttOperate, o})
+			l = append(l, c03Tok{c03ttOperate, o})
 		}
 		for _, u := range t.Unary {
-			l = append(l, c03Tok{ttOperate, u})
+			l = append(l, c03Tok{c03ttOperate, u})
 		}
 		return l
 	}
@@ -1048,20 +1052,20 @@ func cmdC03(seed int64, tier, outDir string) {
 			tree := r.c03Expr(t, depth)
 			withMap := t.MapThis != ""
 			sum.Count("tree_depth", fmt.Sprint(tree.depth()))
-			tree.walk(func(x *rtNode) { sum.Count("node_kinds", x.K) })
+			tree.walk(func(x *c03Rt) { sum.Count("node_kinds", x.K) })
 			var minToks, fullToks []c03Tok
 			for mode := 0; mode < 3; mode++ {
 				c, toks := cr.rendering(r, t, tree, mode, withMap)
 				sum.Count("render_mode", c.Note)
 				switch mode {
-				case modeMin:
+				case c03ModeMin:
 					minToks = toks
-				case modeFull:
+				case c03ModeFull:
 					fullToks = toks
 				}
 				cr.run(c)
 			}
-			minP, fullP := r.c03Render(t, tree, modeMin), r.c03Render(t, tree, modeFull)
+			minP, fullP := r.c03Render(t, tree, c03ModeMin), r.c03Render(t, tree, c03ModeFull)
 			var a, b []c03Tok
 			t.flatten(minP, &a)
 			t.flatten(fullP, &b)
@@ -1138,7 +1142,7 @@ func cmdC03(seed int64, tier, outDir string) {
 
 	// full grammar over the value-language table
 	for i := 0; i < progs; i++ {
-		g := &progGen{r: r, ops: vops, unary: vun}
+		g := &c03ProgGen{r: r, ops: vops, unary: vun}
 		withMap := r.Chance(0.15)
 		text := g.let(2 + r.Pick(4))
 		sum.Count("program_nodes", bucket(g.n))
